@@ -27,7 +27,21 @@ type fedCase struct {
 	Domain    string     `json:"domain"`
 }
 
+var handShapes = []string{
+	`{ a: me { pets { owner { id name } } } b: me { pets { owner { name } } } }`,
+	`{ a: humans { pets { owner { id name } } } b: humans { pets { owner { name } } } }`,
+	`{ humans { pets { owner { name phone } weight } friend { pets { owner { id } } } } }`,
+	`{ a: me { pets { __typename weight owner { __typename phone } } } b: me { pets { weight owner { phone } } } }`,
+	`{ pets { owner { pets { owner { name phone } kind weight } } } }`,
+	`{ beings { ... on Human { id name phone } ... on Pet { id kind weight } } }`,
+	`{ a: pets { owner { id friend { id name phone } } } b: pets { owner { friend { phone } } } }`,
+	`{ a: me { friend { name pets { kind } } phone } b: me { friend { id phone } } c: humans { friend { phone name } } }`,
+}
+
 func worldFor(seed int64, domain string) *gen.World {
+	if domain == "hand" {
+		return handWorld()
+	}
 	opt := gen.DefaultWorldOptions()
 	if domain == "inputs" {
 		opt.InputArgs = true
@@ -91,6 +105,13 @@ func driveC01(seed int64, tier, out, replay string) {
 		cases = loadReplayCases[fedCase](replay)
 	} else {
 		cfgs := []RigConfig{{}, {HideNode: true}, {Hint: true}, {Cached: true}, {HideNode: true, Hint: true, Cached: true}}
+		// hand-written operations on the hand-written federation (Human.name/friend/pets@a, Human.phone@b,
+		// Pet.kind@a, Pet.owner/weight@b): shapes in which several places of the result share entities and
+		// de-duplicated sub-requests while differing in what is a helper and what the client asked for
+		for i, q := range handShapes {
+			op := gen.GenOp{Query: q, Kind: "query", Features: []string{"hand_shape"}}
+			cases = append(cases, fedCase{Domain: "hand", Op: &op, Cfg: cfgs[i%len(cfgs)]}, fedCase{Domain: "hand", Op: &op, Cfg: cfgs[(i+1)%len(cfgs)]})
+		}
 		for i := 0; i < nWorlds; i++ {
 			ws := rng.Int63()
 			for j := 0; j < opsPer; j++ {
@@ -160,7 +181,9 @@ func driveC01(seed int64, tier, out, replay string) {
 		if c.Op != nil {
 			op = *c.Op
 		} else {
-			op = gen.Operation(hx.NewRand(c.OpSeed), r.Merged, opOptionsFor(c.Domain, r.World))
+			oo := opOptionsFor(c.Domain, r.World)
+			oo.TwinRoots = c.OpSeed%5 == 0
+			op = gen.Operation(hx.NewRand(c.OpSeed), r.Merged, oo)
 		}
 		c.SDLs = r.SDLs
 		c.Op = &op
